@@ -65,15 +65,18 @@ impl CachedPlan {
     /// Return true if a set of input and output nodes matches those used to
     /// create the plan.
     pub fn matches(&self, inputs: &[NodeId], outputs: &[NodeId]) -> bool {
-        let input_match = inputs.len() == self.inputs.len()
-            && inputs
-                .iter()
-                .all(|node_id| self.inputs.binary_search(node_id).is_ok());
-        let output_match = outputs.len() == self.outputs.len()
-            && outputs
-                .iter()
-                .all(|node_id| self.outputs.binary_search(node_id).is_ok());
-        input_match && output_match
+        // `sorted` comes from a request that was validated when the plan was
+        // created, so it has no duplicates. A list of the same length whose
+        // entries are all in `sorted` is either a permutation of it or
+        // contains duplicates, which must go through validation again.
+        let same_ids = |ids: &[NodeId], sorted: &[NodeId]| {
+            ids.len() == sorted.len()
+                && ids
+                    .iter()
+                    .all(|node_id| sorted.binary_search(node_id).is_ok())
+                && first_duplicate_by(ids, |x, y| x == y).is_none()
+        };
+        same_ids(inputs, &self.inputs) && same_ids(outputs, &self.outputs)
     }
 
     /// Return the IDs of the sequence of operators to run.
